@@ -218,6 +218,7 @@ type c07Mutation struct {
 	Pipeline string
 	Call     string
 	Param    string
+	Call2    string // a second mutated call right after Call, if any
 }
 
 func wrongLit(t *pgen.Type) *pgen.Exp {
@@ -266,6 +267,51 @@ func applyIllTyped(p *pgen.Program, r *rand.Rand, kind string) *c07Mutation {
 						}
 					}
 				}
+			}
+		}
+		return nil
+	}
+	if kind == "mapped-output-level-short" || kind == "mapped-output-level-short-tmap" {
+		// Two consumers of a map call's output, declared BEFORE the map call
+		// (legal: the compiler sorts calls by dependency), whose parameter has
+		// the output's declared type, i.e. one collection level short of what
+		// the mapped call yields.
+		for _, pl := range pipes {
+			for _, c := range pl.Calls {
+				if !c.Map {
+					continue
+				}
+				_, outs, _, _ := p.Callable(c.Callee)
+				if len(outs) == 0 {
+					continue
+				}
+				o := outs[r.Intn(len(outs))]
+				lang, src := "comp", "/bin/true ZZMUT"
+				if len(p.Stages) > 0 {
+					lang = p.Stages[0].SrcLang
+				}
+				// the first consumer takes the collection (as an array, or in the
+				// -tmap variant as a typed map: whichever does not fit the call's
+				// mapping mode is one more ill-typed binding in the same span);
+				// the second one is a level short
+				wrapped := pgen.ArrayOf(o.Type)
+				if kind == "mapped-output-level-short-tmap" {
+					if !o.Type.CanBeTMapElem() {
+						continue
+					}
+					wrapped = pgen.TMapOf(o.Type)
+				}
+				st := &pgen.Stage{Name: "ZZMUT", Ins: []pgen.Param{{Name: "x", Type: o.Type}},
+					Outs: []pgen.Param{{Name: "y", Type: pgen.TInt}}, SrcLang: lang, Src: src, File: pl.File}
+				stw := &pgen.Stage{Name: "ZZWRAP", Ins: []pgen.Param{{Name: "x", Type: wrapped}},
+					Outs: []pgen.Param{{Name: "y", Type: pgen.TInt}}, SrcLang: lang, Src: src, File: pl.File}
+				p.Stages = append(p.Stages, st, stw)
+				ref := func() *pgen.Exp { return &pgen.Exp{Kind: pgen.ERefCall, Id: c.Name(), Path: []string{o.Name}} }
+				pl.Calls = append([]*pgen.Call{
+					{Callee: "ZZWRAP", Alias: "ZZMUT1", Binds: []pgen.Binding{{Id: "x", Exp: ref()}}},
+					{Callee: "ZZMUT", Alias: "ZZMUT2", Binds: []pgen.Binding{{Id: "x", Exp: ref()}}},
+				}, pl.Calls...)
+				return &c07Mutation{Kind: kind, Pipeline: pl.Name, Call: "ZZMUT1", Param: "x", Call2: "ZZMUT2"}
 			}
 		}
 		return nil
@@ -417,7 +463,7 @@ func containsOnlyNull(e *pgen.Exp) bool {
 }
 
 var c07Kinds = []string{"wrong-base-type", "array-depth-plus", "array-depth-minus", "array-vs-map", "unknown-parameter",
-	"struct-missing-field", "struct-extra-field", "inconsistent-split", "nonexistent-output", "missing-parameter", "split-wrong-element-level"}
+	"struct-missing-field", "struct-extra-field", "inconsistent-split", "nonexistent-output", "missing-parameter", "split-wrong-element-level", "mapped-output-level-short", "mapped-output-level-short-tmap"}
 
 type c07Input struct {
 	Files map[string]string `json:"files"`
@@ -574,6 +620,11 @@ func c07Completeness(c *vf.Ctx) {
 			continue
 		}
 		file, lo, hi := callSpan(m.files, m.mut.Pipeline, m.mut.Call)
+		if m.mut.Call2 != "" {
+			if f2, _, hi2 := callSpan(m.files, m.mut.Pipeline, m.mut.Call2); f2 == file && hi2 > hi {
+				hi = hi2
+			}
+		}
 		if file == "" {
 			c.Count("mutated_call_not_located_by_harness", 1)
 			continue
